@@ -626,6 +626,7 @@ func c19IsPool() []c19Ref {
 		return ref
 	}
 	ident, _ := resource.NewIdentity("Patient", "1", "7")
+	ident8, _ := resource.NewIdentity("Patient", "1", "8")
 	idX := fhir.Identifier("http://sys", "X")
 	idY := fhir.Identifier("http://sys", "Y")
 	withIdent := func(r *dtpb.Reference, id *dtpb.Identifier) *dtpb.Reference {
@@ -642,6 +643,9 @@ func c19IsPool() []c19Ref {
 		{"weak http://h/Patient/1", reference.Weak("Patient", "http://h/Patient/1")},
 		{"weak http://other/Patient/1", reference.Weak("Patient", "http://other/Patient/1")},
 		{"weak Patient/1/_history/7", reference.Weak("Patient", "Patient/1/_history/7")},
+		{"weak Patient/1/_history/8", reference.Weak("Patient", "Patient/1/_history/8")},
+		{"typed Patient/1 v8", reference.TypedFromIdentity(ident8)},
+		{"weak http://h/Patient/1/_history/8", reference.Weak("Patient", "http://h/Patient/1/_history/8")},
 		{"weak Patient/2", reference.Weak("Patient", "Patient/2")},
 		{"fragment #1 type Patient", &dtpb.Reference{Type: fhir.URI("Patient"), Reference: &dtpb.Reference_Fragment{Fragment: fhir.String("1")}}},
 		{"fragment #1 no type", &dtpb.Reference{Reference: &dtpb.Reference_Fragment{Fragment: fhir.String("1")}}},
